@@ -17,7 +17,7 @@
 (* (trailer without the cross-reference bookkeeping keys Size, Type, W ...).*)
 (* A call is a record                                                       *)
 (*    [op |-> name, id |-> Nat, x |-> Nat, name |-> STRING, b |-> bytes,    *)
-(*     o |-> obj, nums |-> Seq(Nat), fmt |-> STRING]                        *)
+(*     o |-> obj, nums |-> Seq(Nat), fmt |-> STRING, ops |-> Seq(token)]    *)
 (* and its result [ok |-> BOOLEAN, id |-> Nat, ids |-> Seq(Nat)].           *)
 (*                                                                          *)
 (* Two layers (DESIGN 2.9):                                                 *)
@@ -37,8 +37,18 @@
 (*      prune                PruneExact                                     *)
 (*      counts maxid         CountsOk, MaxIdOk (reported by the step that   *)
 (*                           breaks them)                                   *)
-(*      content contents.refToArray      ContentOk (ghost content)          *)
-(*      resmono resources.shadow         ResMonotone                        *)
+(*      content contents.refToArray content.sharedStream                    *)
+(*                           ContentOk on bytes (ghost content; the last:   *)
+(*                           an edit of one page shows on a page sharing    *)
+(*                           its content stream)                            *)
+(*      content.ops content.streamBoundary                                  *)
+(*                           ContentOk on operation sequences (observed     *)
+(*                           through Content::decode) for add_to_page_      *)
+(*                           content / insert_image / insert_form_object    *)
+(*      resmono resources.shadow resmono.other resources.nameCollision      *)
+(*                           ResMonotone (the last two: insert_* take a     *)
+(*                           resource from another page / replace an entry  *)
+(*                           that already has the name they derive)         *)
 (*      effect.<Call>        the post-state the abstract model prescribes   *)
 (*    together with the next ghost state.  Only this layer decides.         *)
 (*  - impl-shaped: Impl(d, call, dev) -- the algorithms of creator.rs,      *)
@@ -538,9 +548,12 @@ Judge(pre, A, gh, c, res, post, B, O1) ==
                     eff(/\ pp1 = SelectSeq(pp0, LAMBDA p : p \notin X)
                         /\ DOMAIN post.objs = DOMAIN pre.objs \ X)
               [] c.op = "Renumber"    ->
-                    LET n == Cardinality(DOMAIN post.objs) IN
-                    eff(/\ Cardinality(DOMAIN pre.objs) = n /\ DOMAIN post.objs = 1..n
-                        /\ (n > 0 => post.max_id = n)
+                    \* renumber_objects_with(c.x) (renumber_objects: c.x = 1): numbers c.x, c.x + 1, ... without gaps
+                    LET n  == Cardinality(DOMAIN post.objs)
+                        st == IF c.x = 0 THEN 1 ELSE c.x
+                    IN
+                    eff(/\ Cardinality(DOMAIN pre.objs) = n /\ DOMAIN post.objs = st..(st + n - 1)
+                        /\ (n > 0 => post.max_id = st + n - 1)
                         /\ Len(pp1) = Len(pp0)
                         /\ Cardinality(B.reach) = Cardinality(reach)
                         /\ \A i \in 1..Len(pp0) : i <= Len(pp1) => ResNames(post.objs, pp1[i]) = ResNames(pre.objs, pp0[i]))
@@ -598,24 +611,27 @@ Violations(tags) == tags \ DriftTags
 (* compared with lopdf's), DevSeeded = the five repaired defects seeded back (a negative control of the *)
 (* declarative layer: its violations must be exactly the five former findings).                        *)
 
-(* Three further switches re-create deviations that are confirmed and still in the code (known findings):*)
-(*   shared   change_page_content rewrites a content stream in place although another page uses it too   *)
-(*   collide  insert_image / insert_form_object name the new XObject X<object number> without looking    *)
-(*            whether the page can already use a resource of that name                                   *)
-(* and one more that was a finding of the operation-level clauses and is repaired (fix: 1ec5ee7):        *)
-(*   boundary get_page_content joined a page's content streams without white space, so the last operator *)
-(*            of one stream and the first token of the next were decoded as one token (the model world's  *)
-(*            observation ObserveM decodes the plain concatenation when the switch is TRUE)              *)
-(* DevRepaired = everything repaired (mode "repaired": no violation at all).                             *)
+(* Three further switches re-create deviations found by the clauses on shared streams, chosen names and  *)
+(* operation sequences, all repaired in lopdf since:                                                      *)
+(*   shared   change_page_content rewrote a content stream in place although another page uses it too     *)
+(*            (fix: 331f344)                                                                              *)
+(*   collide  insert_image / insert_form_object named the new XObject X<object number> without looking    *)
+(*            whether the page can already use a resource of that name (fix: c68af72)                     *)
+(*   boundary get_page_content joined a page's content streams without white space, so the last operator  *)
+(*            of one stream and the first token of the next were decoded as one token (fix: 1ec5ee7; the  *)
+(*            model world's observation ObserveM decodes the plain concatenation when the switch is TRUE) *)
+(* DevAsIs = the code as it is: every switch FALSE.  DevSeeded = all repaired defects seeded back (a       *)
+(* negative control of the declarative layer: its violations must be exactly FormerFindings).             *)
+(* DevRepaired = DevAsIs without the asis mark (kept for experiments).                                     *)
 
 DevAsIs     == [asis |-> TRUE, mode |-> "asis", dup |-> FALSE, sdict |-> FALSE, trailer |-> FALSE, shadow |-> FALSE,
-                refarr |-> FALSE, shared |-> TRUE, collide |-> TRUE, boundary |-> FALSE]
+                refarr |-> FALSE, shared |-> FALSE, collide |-> FALSE, boundary |-> FALSE]
 DevSeeded   == [asis |-> FALSE, mode |-> "seeded", dup |-> TRUE, sdict |-> TRUE, trailer |-> TRUE, shadow |-> TRUE,
                 refarr |-> TRUE, shared |-> TRUE, collide |-> TRUE, boundary |-> TRUE]
 DevRepaired == [asis |-> FALSE, mode |-> "repaired", dup |-> FALSE, sdict |-> FALSE, trailer |-> FALSE, shadow |-> FALSE,
                 refarr |-> FALSE, shared |-> FALSE, collide |-> FALSE, boundary |-> FALSE]
 FormerFindings == {"delete.array.dup", "delete.streamdict", "delete.trailer", "resources.shadow", "contents.refToArray",
-                   "content.streamBoundary"}
+                   "content.streamBoundary", "content.sharedStream", "resources.nameCollision"}
 
 Out(d, res) == [doc |-> d, res |-> res]
 
@@ -837,8 +853,8 @@ ImplSave(d, fmt) == Out([d EXCEPT !.max_id = IF fmt = "stream" THEN @ + 1 ELSE @
 \* ... and loading the saved bytes gives the same objects; pending bookmarks are not part of a file
 ImplSaveLoad(d, fmt) == Out([d EXCEPT !.max_id = IF fmt = "stream" THEN @ + 1 ELSE @, !.bms = <<>>], ResOk(0))
 
-\* renumber_objects, summarised (C10 transcribes it): pages take the page ids in page order, then
-\* all ids become 1..n in id order; references are renamed in reachable objects only
+\* renumber_objects_with(start), summarised (C10 transcribes it): pages take the page ids in page order, then
+\* all ids become start..start+n-1 in id order; references are renamed in reachable objects only
 RECURSIVE Rename(_, _)
 Rename(o, f) ==
     CASE o.k = "ref"    -> IF o.n \in DOMAIN f THEN Ref(f[o.n]) ELSE o
@@ -852,17 +868,18 @@ ApplyRenaming(d, f) ==            \* f: a bijection on DOMAIN d.objs
         inv == [nid \in {f[id] : id \in DOMAIN d.objs} |-> CHOOSE id \in DOMAIN d.objs : f[id] = nid]
     IN [d EXCEPT !.objs = [nid \in DOMAIN inv |-> IF inv[nid] \in r THEN Rename(d.objs[inv[nid]], f) ELSE d.objs[inv[nid]]],
                  !.trailer = Rename(DictO(d.trailer), f).v,
-                 !.bms = [i \in 1..Len(d.bms) |-> IF d.bms[i] \in DOMAIN f THEN f[d.bms[i]] ELSE d.bms[i]]]
+                 \* (a bookmark whose target names no object is sent to the never-used id (0, 65535): number 0)
+                 !.bms = [i \in 1..Len(d.bms) |-> IF d.bms[i] \in DOMAIN f THEN f[d.bms[i]] ELSE 0]]
 
-ImplRenumber(d) ==
+ImplRenumber(d, start) ==
     LET pp  == PageSeq(d)
         srt == SortSeq(pp, <)
         f1  == [id \in DOMAIN d.objs |-> IF id \in RangeOf(pp) THEN srt[IndexOf(pp, id)] ELSE id]
         d1  == IF pp = srt THEN d ELSE ApplyRenaming(d, f1)
         ids == SetToSortSeq(DOMAIN d1.objs, <)
-        f2  == [id \in DOMAIN d1.objs |-> IndexOf(ids, id)]
+        f2  == [id \in DOMAIN d1.objs |-> start + IndexOf(ids, id) - 1]
         d2  == ApplyRenaming(d1, f2)
-    IN Out([d2 EXCEPT !.max_id = Len(ids)], ResOk(0))
+    IN Out([d2 EXCEPT !.max_id = start + Len(ids) - 1], ResOk(0))
 
 \* parser_aux.rs -------------------------------------------------------------
 \* add_to_page_content: Content::encode, then add_page_contents
@@ -912,7 +929,7 @@ Impl(d, c, dev, dec) ==
       [] c.op = "RemoveAnnot"          -> ImplRemoveAnnot(d, c.id)
       [] c.op = "Prune"                -> ImplPrune(d)
       [] c.op = "DeletePages"          -> ImplDeletePages(d, c.nums, dev)
-      [] c.op = "Renumber"             -> ImplRenumber(d)
+      [] c.op = "Renumber"             -> ImplRenumber(d, IF c.x = 0 THEN 1 ELSE c.x)
       [] c.op = "Compress"             -> ImplCompress(d)
       [] c.op = "Decompress"           -> ImplDecompress(d)
       [] c.op = "AddPageContents"      -> ImplAddPageContents(d, c.id, c.b, dev)
